@@ -406,6 +406,34 @@ Proof.
     cbn. rewrite Hy. fold (mapM f l). rewrite Hys. reflexivity.
 Qed.
 
+(* ---- Optimiser.entries (fix D15/D20): an identifier body is optimised entry by entry ---- *)
+Lemma entries_inv : forall (f : expr -> out expr) e e', entries f e = Ok e' ->
+  match e with
+  | EGroup s l => exists l', e' = EGroup s l' /\ Forall2 (fun x y => f x = Ok y) l l'
+  | _ => f e = Ok e'
+  end.
+Proof.
+  intros f e e' H. destruct e as [b l| | | | | | | | | | | | |]; cbn [entries] in H; try exact H.
+  apply bind_ok_inv in H. destruct H as [l' [Hl H]]. injection H as <-.
+  exists l'. split; [reflexivity|]. apply mapM_Forall2. exact Hl.
+Qed.
+
+Lemma entries_rel : forall (f : expr -> out expr) (P : expr -> Prop) (Q : expr -> expr -> Prop) e,
+  (forall x, P x -> exists y, f x = Ok y /\ Q x y) ->
+  match e with EGroup _ l => forall x, In x l -> P x | _ => P e end ->
+  exists e', entries f e = Ok e' /\
+    match e with
+    | EGroup s l => exists l', e' = EGroup s l' /\ Forall2 Q l l'
+    | _ => Q e e'
+    end.
+Proof.
+  intros f P Q e Hf He. destruct e as [b l| | | | | | | | | | | | |]; try exact (Hf _ He).
+  destruct (mapM_exists_F2 f Q l) as [l' [Hl HF]].
+  { intros x Hx. apply Hf. apply He. exact Hx. }
+  exists (EGroup b l'). cbn [entries]. rewrite Hl. cbn [bind]. split; [reflexivity|].
+  exists l'. split; [reflexivity|exact HF].
+Qed.
+
 Lemma Forall2_flip' : forall {A B} (R : A -> B -> Prop) l l',
   Forall2 R l l' -> Forall2 (fun y x => R x y) l' l.
 Proof. intros A B R l l' H. induction H; constructor; assumption. Qed.
@@ -1699,6 +1727,32 @@ Proof.
   apply (shake0_post o fuel e e' Hi H).
 Qed.
 
+(* the shape predicates pass from a group to its members (the entries of an identifier body) *)
+Lemma exists_sub_member : forall p n s l x, exists_sub p n (EGroup s l) = false -> In x l ->
+  exists_sub p n x = false.
+Proof.
+  intros p n s l x H Hx. cbn [exists_sub] in H. apply orb_false_iff in H. destruct H as [_ H].
+  destruct (exists_sub p n x) eqn:E; [|reflexivity].
+  rewrite <- H. symmetry. apply existsb_exists. exists x. split; assumption.
+Qed.
+Lemma no_dneg_member : forall s l x, no_dneg (EGroup s l) = true -> In x l -> no_dneg x = true.
+Proof.
+  intros s l x H Hx. unfold no_dneg in *. apply negb_true_iff in H. apply negb_true_iff.
+  exact (exists_sub_member _ _ _ _ _ H Hx).
+Qed.
+Lemma shx_member : forall s l x, shx (EGroup s l) = true -> In x l -> shx x = true.
+Proof.
+  intros s l x H Hx. cbn [shx] in H. destruct l as [|y l']; [destruct Hx|].
+  exact (forallb_In _ _ _ H Hx).
+Qed.
+Lemma wf_body_member : forall s l x, wf_body (EGroup s l) = true -> In x l -> wf_body x = true.
+Proof.
+  intros s l x H Hx. cbn [wf_body] in H. apply andb_true_iff in H. destruct H as [_ H].
+  exact (forallb_In _ _ _ H Hx).
+Qed.
+Lemma wf_body_group : forall s l, wf_body (EGroup s l) = true -> is_and_or s = true.
+Proof. intros s l H. cbn [wf_body] in H. apply andb_true_iff in H. destruct H as [H _]. exact H. Qed.
+
 (* shake_0 also keeps the shape: the result can be shaken again *)
 Lemma shake0_keeps_inv : forall fuel e e',
   wf_body e = true -> sh0 e = true -> no_dneg e = true -> shx e = true ->
@@ -1799,14 +1853,16 @@ Proof.
   eexists; split; [vm_compute; reflexivity|]. split; vm_compute; reflexivity.
 Qed.
 
+(* (since fix D15/D20 an identifier body that is not inlined keeps its top-level group, so the
+   witness needs the coalesce switch: the and-group is merged as part of the condition) *)
 Example refuted_D16 :
   let body := EGroup BAnd [ENested [120%N] (EBexp (EField [97%N]) BEqual (EInt 1));
                            ENested [121%N] (EBexp (EField [98%N]) BEqual (EInt 2))] in
   let r := mk_rule (ENegate (EIdent [65%N])) [([65%N], body)] in
   let d : doc := fun k => if str_eqb k [120%N] then Some (VObj [([97%N], VInt 5)]) else None in
   matches o0 r d = Ok true /\
-  (exists r', optimise o0 (fun k => k) sw_only_shake r = Ok r' /\ matches o0 r' d = Ok true) /\
-  (exists r', optimise o0 (@rev key) sw_only_shake r = Ok r' /\ matches o0 r' d = Ok false).
+  (exists r', optimise o0 (fun k => k) sw_coalesce_shake r = Ok r' /\ matches o0 r' d = Ok true) /\
+  (exists r', optimise o0 (@rev key) sw_coalesce_shake r = Ok r' /\ matches o0 r' d = Ok false).
 Proof.
   cbv zeta. split; [vm_compute; reflexivity|]. split.
   - eexists; split; [vm_compute; reflexivity|vm_compute; reflexivity].
